@@ -73,6 +73,7 @@ THEOREMS = [
     "NfcVerif.C20.mutual_auth_complete_every_card_state",
     "NfcVerif.C20.every_session_complete",
     "NfcVerif.C20.auth_write_auth_complete",
+    "NfcVerif.C20.protect_then_authenticate_complete",
     "NfcVerif.C20.short_frame_refused",
     "NfcVerif.C20.ntag_auth_true_length",
 ]
